@@ -15,7 +15,12 @@ class Engine(StmtMixin, CallMixin, ExprMixin, EngineBase):
     spec_mode = False
 
     def new_ctx(self):
-        return Ctx(self.m.prelude, self.m.axioms)
+        c = Ctx(self.m.prelude, self.m.axioms)
+        for name, (asorts, ret) in self.m.ufuns.items():
+            c.fun(name, asorts, ret)
+        for sort in self.m.fields.values():
+            c.need(sort)
+        return c
 
     def entry_state(self, k):
         st = St()
@@ -95,8 +100,9 @@ class Engine(StmtMixin, CallMixin, ExprMixin, EngineBase):
                 self.obls.append(o)
         # cover: at least one normal return must be reachable (vacuity guard)
         if normal_returns and k.get("cover", True):
-            ctx, pc = normal_returns[0]
-            self.obls.append(Obligation(f"{short}/cover[normal-return]", "cover", ctx.prelude(), pc, "false", fn.lineno, short, expect="sat"))
+            # some normal return must be reachable: instances are alternatives (any one sat suffices)
+            for ctx, pc in normal_returns[:6]:
+                self.obls.append(Obligation(f"{short}/cover[normal-return]", "cover", ctx.prelude(), pc, "false", fn.lineno, short, expect="sat"))
         for key in k.get("at_call", {}):
             if key not in self.sites_seen:
                 self.obls.append(Obligation(f"{short}/site-exists[{key}]", "site-exists", ["(set-logic ALL)"], [], "false", fn.lineno, short, expect="site"))
